@@ -75,22 +75,25 @@ InsideReservation(S, reserved) == \A s \in S : WLe(End(s), reserved)
 \* Model checking: the real table shapes (LogArch = 47, LogUnit = 20), every placement of the VM's
 \* per-object metadata (side / header) and every declaration order.
 \* ================================================================================================
-CONSTANTS LocalBaseRule,   \* "after_last_core_global" (implemented on 64-bit) | "after_all_globals" (documented)
+CONSTANTS ImmixBlockLog,   \* 15 (13: feature immix_smaller_block)
+          LocalBaseRule,   \* "after_last_core_global" (implemented on 64-bit) | "after_all_globals" (documented)
           OffsetRule       \* "offset_after" | a broken variant (vacuity control)
 VARIABLE conf              \* [logSide, order]: the VM declaration
 
 Sh(n, g, lb, lr) == [n |-> n, g |-> g, lb |-> lb, lr |-> lr]
 CoreGlobalShapes == << Sh("VO_BIT", TRUE, 0, 3), Sh("SFT_DENSE_CHUNK_MAP_INDEX", TRUE, 3, 22),
                        Sh("CHUNK_MARK", TRUE, 3, 22) >>
-CoreLocalShapes ==
+\* b = log2 of the Immix block size: 15, or 13 with the feature immix_smaller_block
+CoreLocalShapesB(b) ==
     << Sh("MALLOC_MS_ACTIVE_PAGE", FALSE, 3, 12), Sh("MS_OFFSET_MALLOC", FALSE, 0, 3),
-       Sh("IX_LINE_MARK", FALSE, 3, 8), Sh("IX_BLOCK_DEFRAG", FALSE, 3, 15),
-       Sh("IX_BLOCK_MARK", FALSE, 3, 15), Sh("MS_BLOCK_MARK", FALSE, 3, 16),
+       Sh("IX_LINE_MARK", FALSE, 3, 8), Sh("IX_BLOCK_DEFRAG", FALSE, 3, b),
+       Sh("IX_BLOCK_MARK", FALSE, 3, b), Sh("MS_BLOCK_MARK", FALSE, 3, 16),
        Sh("MS_BLOCK_NEXT", FALSE, 6, 16), Sh("MS_BLOCK_PREV", FALSE, 6, 16),
        Sh("MS_BLOCK_LIST", FALSE, 6, 16), Sh("MS_BLOCK_SIZE", FALSE, 6, 16),
        Sh("MS_BLOCK_TLS", FALSE, 6, 16), Sh("MS_FREE", FALSE, 6, 16),
        Sh("MS_LOCAL_FREE", FALSE, 6, 16), Sh("MS_THREAD_FREE", FALSE, 6, 16),
        Sh("COMPRESSOR_MARK", FALSE, 0, 3), Sh("COMPRESSOR_OFFSET_VECTOR", FALSE, 6, 9) >>
+CoreLocalShapes == CoreLocalShapesB(ImmixBlockLog)
 VMLogShape == Sh("VMGlobalLogBitSpec", TRUE, 0, 3)
 VMLocalShape(n) ==
     CASE n = "fwdbits" -> Sh("VMLocalForwardingBitsSpec", FALSE, 1, 3)
